@@ -721,3 +721,7 @@ fn report_exit(exit_reason: eyre::Result<&str>, message: &str) -> eyre::Result<(
         }
     }
 }
+
+#[cfg(all(test, feature = "verif"))]
+#[path = "/verif/harness/conductor/celestia_mc.rs"]
+mod verif_celestia;
